@@ -22,11 +22,19 @@ import numpy as np
 if not hasattr(np, "product"):
     np.product = np.prod
 
-from distance3d import hydroelastic_contact as hc
-from distance3d.hydroelastic_contact import _tetrahedron_intersection as ti
-from distance3d.hydroelastic_contact import _halfplanes as hp
-from distance3d.hydroelastic_contact import _forces as fo
-from distance3d.utils import plane_basis_from_normal
+hc = ti = hp = fo = plane_basis_from_normal = None
+COVERED = ["_tetrahedron_intersection.py", "_halfplanes.py", "_forces.py", "_interface.py"]
+
+
+def load():
+    """import distance3d (after coverage measurement has been started, if requested)"""
+    global hc, ti, hp, fo, plane_basis_from_normal
+    from distance3d import hydroelastic_contact as _hc
+    from distance3d.hydroelastic_contact import _tetrahedron_intersection as _ti
+    from distance3d.hydroelastic_contact import _halfplanes as _hp
+    from distance3d.hydroelastic_contact import _forces as _fo
+    from distance3d.utils import plane_basis_from_normal as _pb
+    hc, ti, hp, fo, plane_basis_from_normal = _hc, _ti, _hp, _fo, _pb
 
 
 def A(x):
@@ -158,6 +166,21 @@ def run_bodies(c):
             force=L(cs.contact_forces[k]), area=float(cs.contact_areas[k]), com=L(cs.contact_coms[k]),
             sw_inter=bool(sw_inter), sw_plane=L(sw_plane), sw_poly=None if sw_poly is None else L(sw_poly)))
     out["contacts"] = contacts
+    out["reported_pairs"] = [[int(i), int(j)] for i, j in zip(cs.intersecting_tetrahedra1, cs.intersecting_tetrahedra2)]
+    out["com1"], out["com2"] = L(b1.com), L(b2.com)
+    if n:
+        out["sum_force"] = L(np.sum(cs.contact_forces, axis=0))
+    if c.get("all_pairs") and len(tp1) * len(tp2) <= int(c.get("all_pairs_limit", 6000)):
+        # narrow phase on EVERY tetrahedron pair (no broad phase): the reported set must be this set
+        X1a, X2a = hc.barycentric_transforms(tp1), hc.barycentric_transforms(tp2)
+        allp = []
+        E1, E2 = float(b1.youngs_modulus), float(b2.youngs_modulus)
+        for i in range(len(tp1)):
+            for j in range(len(tp2)):
+                inter, _ = hc.intersect_tetrahedron_pair(A(tp1[i]), A(ep1[i]), A(X1a[i]), A(tp2[j]), A(ep2[j]), A(X2a[j]), E1, E2)
+                if inter:
+                    allp.append([i, j])
+        out["all_pairs"] = allp
     if c.get("want_vertices"):
         # both bodies in the frame the intersection was computed in (body 2's frame)
         out["verts1"] = L(b1.vertices_)
@@ -165,10 +188,65 @@ def run_bodies(c):
     return out
 
 
+def run_unit(c):
+    """one internal function on crafted inputs (bit-exact comparison with the model)"""
+    fn, a = c["fn"], c["args"]
+    if fn == "pre":
+        return dict(out=bool(ti.check_tetrahedra_intersect_contact_plane(
+            A(a["t1"]), A(a["t2"]), A(a["n"]), float(a["d"]), 1e-6)))
+    if fn == "outside":
+        return dict(out=bool(hp.point_outside_of_halfplane(A(a["h"]), A(a["p"]))))
+    if fn == "two":
+        return dict(out=L(hp.intersect_two_halfplanes(A(a["h1"]), A(a["h2"]))))
+    if fn == "inter":
+        try:
+            return dict(out=L(hp.intersect_halfplanes(A(a["hps"]).reshape(-1, 4))))
+        except AssertionError:
+            return dict(out="AssertionError")
+    if fn == "filter":
+        return dict(out=L(ti.filter_unique_points(A(a["pts"]).reshape(-1, 2))))
+    if fn == "make_hp":
+        return dict(out=L(ti.make_halfplanes(A(a["X"]), A(a["pp"]), A(a["c2p"]))))
+    if fn == "plane":
+        pl, same = ti.contact_plane(A(a["X1"]), A(a["X2"]), A(a["e1"]), A(a["e2"]), float(a["E1"]), float(a["E2"]))
+        return dict(out=L(pl), same=bool(same))
+    if fn == "basis":
+        x, y = plane_basis_from_normal(A(a["n"]))
+        return dict(out=L(x) + L(y))
+    if fn == "same":
+        pl, poly = ti._handle_same_tetrahedron(A(a["e"]), A(a["t"]))
+        return dict(out=[L(pl)] + L(poly))
+    if fn == "project":
+        return dict(out=L(ti.project_polygon_to_3d(A(a["vs"]).reshape(-1, 2), A(a["c2p"]), A(a["pp"]))))
+    if fn == "order":
+        pts = A(a["pts"]).reshape(-1, 2)
+        ordered = ti.order_points(pts)
+        return dict(out=L(ordered), perm=match_perm(pts.tolist(), ordered.tolist()))
+    if fn == "force":
+        com, force, area, tris = fo.compute_contact_force(A(a["t"]), A(a["e"]), A(a["plane"]), A(a["poly"]), float(a["E"]))
+        return dict(out=L(com) + L(force) + [float(area)], tris=np.asarray(tris).astype(int).tolist())
+    if fn == "tess":
+        return dict(out=np.asarray(fo.tesselate_ordered_polygon(int(a["n"]))).astype(int).tolist(),
+                    table=np.asarray(fo.TRIANGLES).astype(int).tolist())
+    if fn == "pairs":
+        # intersect_tetrahedron_pairs on explicit arrays: index wiring of the batch loop
+        tp1, tp2 = A(a["tp1"]), A(a["tp2"])
+        ep1, ep2 = A(a["ep1"]), A(a["ep2"])
+        X1 = {i: bary(tp1[i]) for i in range(len(tp1))}
+        X2 = {j: bary(tp2[j]) for j in range(len(tp2))}
+        inter, planes, polys, i1, i2 = ti.intersect_tetrahedron_pairs(
+            [tuple(p) for p in a["pairs"]], tp1, tp2, ep1, ep2, X1, X2, float(a["E1"]), float(a["E2"]))
+        return dict(inter=bool(inter), planes=L(planes) if len(i1) else [], polys=[L(p) for p in polys],
+                    i1=[int(i) for i in i1], i2=[int(j) for j in i2])
+    raise ValueError(fn)
+
+
 def run_case(c):
     try:
         if c["kind"] == "pair":
             return run_pair(c)
+        if c["kind"] == "unit":
+            return run_unit(c)
         return run_bodies(c)
     except BaseException as e:  # noqa
         return dict(exc=type(e).__name__, exc_msg=str(e)[:300], tb=traceback.format_exc()[-1500:])
@@ -176,8 +254,29 @@ def run_case(c):
 
 def main():
     payload = json.load(open(sys.argv[1]))
+    cov = None
+    if payload.get("trace"):
+        # line/branch coverage of the interpreted code (the harness runs this worker with
+        # NUMBA_DISABLE_JIT=1): which lines/branches of the files in scope the cases reach
+        import coverage
+        cov = coverage.Coverage(branch=True, data_file=None, include=["*/hydroelastic_contact/" + f for f in COVERED])
+        cov.start()
+    load()
     res = [run_case(c) for c in payload["cases"]]
-    json.dump(dict(results=res), open(sys.argv[2], "w"))
+    out = dict(results=res)
+    if cov is not None:
+        cov.stop()
+        import os
+        rep = {}
+        base = os.path.dirname(hc.__file__)
+        for f in COVERED:
+            an = cov._analyze(os.path.join(base, f))
+            miss_arcs = an.missing_branch_arcs()
+            rep[f] = dict(statements=len(an.statements), missing_lines=sorted(an.missing),
+                          branches=an.numbers.n_branches, missing_branches=an.numbers.n_missing_branches,
+                          missing_arcs=sorted([int(a), int(b)] for a, bs in miss_arcs.items() for b in bs))
+        out["coverage"] = rep
+    json.dump(out, open(sys.argv[2], "w"))
 
 
 if __name__ == "__main__":
